@@ -472,6 +472,12 @@ def r8(ctx, rep):
     rep.borrowed(C03.r1_r2, ctx, "C01.R8", "the rows a take returns are those of the order in effect")
 
 
+def r13(ctx, rep):
+    # which rows `take a..b | take c..d` returns is arithmetic on positions: C03's composition / LIMIT / OFFSET formulas are necessary for C01 too
+    import C03
+    rep.borrowed(C03.r5, ctx, "C01.R13", "the rows a composed take returns are those at the documented positions")
+
+
 def r9(ctx, rep):
     rep.rule("C01.R9", "the two functions that compute the row of a pipeline agree on what an Aggregate outputs", floor=2)
     syn = ctx.syn
@@ -617,5 +623,5 @@ def r12(ctx, rep):
 
 
 def run(ctx, rep):
-    for r in (r1, r2, r3, r4, r5, r6, r7, r8, r9, r10, r11, r12):
+    for r in (r1, r2, r3, r4, r5, r6, r7, r8, r9, r10, r11, r12, r13):
         rep.guard(r, ctx)
